@@ -18,6 +18,7 @@ import (
 	"time"
 
 	"verifharness/internal/gen"
+	"verifharness/internal/oracle"
 	"verifharness/internal/proj"
 )
 
@@ -99,6 +100,23 @@ func driverSrc(p *proj.Project, old bool, ending behEnding, k int, concurrent bo
 		}
 	}
 	calls("\t")
+	// one function is called 300 more times: counters must not wrap at 8 bits
+	hot := ""
+	for _, pk := range libs {
+		for _, f := range pk.Files {
+			if f.Status == gen.Added || hot != "" {
+				continue
+			}
+			for _, fn := range f.Funcs {
+				if fn.Status != gen.Added && hot == "" {
+					hot = callOf(pk.Name, fn)
+				}
+			}
+		}
+	}
+	if hot != "" {
+		fmt.Fprintf(&b, "\tfor i := 0; i < 300; i++ {\n\t\t%s\n\t}\n", hot)
+	}
 	if concurrent {
 		// race: true configurations: the same tracking points are reached from four goroutines
 		// with no happens-before edge between them (the functions share no unsynchronised state)
@@ -432,6 +450,15 @@ func e2eBehaviour(c *e2eCtx) error {
 		}
 		mainFiles = append(mainFiles, "cmd/zdrv/main.go")
 		instrTree := proj.ReadTree(src)
+		// which mains must start the service: those whose component lists at least one id
+		inS, serr := oracle.Scan(src, cfg.Alias, proj.Module+"/"+cfg.PkgPath, cfg.PkgPath)
+		genF, gerr := oracle.ParseGenerated(filepath.Join(src, cfg.PkgPath, "goat_generated.go"))
+		compIDs := map[string][]int{}
+		if serr == nil && gerr == nil && genF.Exists && len(genF.Names) == len(genF.Components) {
+			for k, nm := range genF.Names {
+				compIDs[nm] = genF.Components[k]
+			}
+		}
 		calls, dumped, err := addProbes(src, cfg, mainFiles)
 		if err != nil {
 			c.violate("", "harness: "+err.Error(), rp(nil))
@@ -499,6 +526,13 @@ func e2eBehaviour(c *e2eCtx) error {
 				c.violate("C14", fmt.Sprintf("%s: the probe build of the instrumented tree prints %q and exits %d, the original prints %q and exits %d (%s)",
 					name, tail(pr.stdout, 120), pr.exit, tail(o1.stdout, 120), o1.exit, desc), what("probe", pr))
 				continue
+			}
+			if mainFile != "" && serr == nil {
+				if ids := compIDs[filepath.Dir(mainFile)]; len(ids) > 0 && !(len(inS.Serve[mainFile]) == 1 && inS.ServeFirst[mainFile]) {
+					c.violate("C14", fmt.Sprintf("%s: its component lists %d tracking ids but func main does not start the service as its first statement (service-start calls in the file: %d): reached ids cannot be reported (%s)",
+						name, len(ids), len(inS.Serve[mainFile]), desc), what("instrumented", in))
+					continue
+				}
 			}
 			if !dumped[mainFile] {
 				c.count("main-without-service-start(no dump)")
